@@ -278,6 +278,18 @@ def gen_ops(rng: random.Random, nops: int) -> list[dict]:
     weights = {'worker': 5, 'future': 2, 'fork': 2, 'connect': 14, 'train': 5, 'segment': 3, 'copy': 1.5,
                'compose': 1.5, 'keep': 2, 'release': 2, 'collect': 1.5}
     kinds, wts = zip(*weights.items())
+    if rng.random() < 0.08:  # swarm: a cycle that does not contain the traced head, each of its nodes also fed by the head
+        ops += [{'op': 'worker', 'stateful': False, 'szin': 1, 'szout': 2},
+                {'op': 'worker', 'stateful': rng.random() < 0.3, 'szin': 2, 'szout': 1},
+                {'op': 'worker', 'stateful': False, 'szin': 2, 'szout': 1},
+                {'op': 'worker', 'stateful': False, 'szin': 1, 'szout': 1},
+                {'op': 'connect', 'pub': 0, 'b': 0, 'sub': 1, 'a': 0, 'via': 'subscribe'},
+                {'op': 'connect', 'pub': 0, 'b': 1, 'sub': 2, 'a': 0, 'via': 'publish'},
+                {'op': 'connect', 'pub': 1, 'b': 0, 'sub': 2, 'a': 1, 'via': 'subscribe'},
+                {'op': 'connect', 'pub': 2, 'b': 0, 'sub': 1, 'a': 1, 'via': 'subscribe'}]
+        if rng.random() < 0.7:
+            ops.append({'op': 'connect', 'pub': rng.choice([1, 2]), 'b': 0, 'sub': 3, 'a': 0, 'via': 'subscribe'})
+        ops.append({'op': 'segment', 'head': 0, 'tail': None})
     for i in range(nops):
         kind = rng.choices(kinds, wts)[0] if i >= 2 else 'worker'
         op = {'op': kind}
